@@ -43,6 +43,9 @@ def _stmt(stmt, pending):
         pending[names[0]] = names[1]
         return [("DRAW", names[0])]
     if not _writes_store(stmt):
+        for node in ast.walk(stmt):
+            if isinstance(node, ast.Call) and any(unparse(a) in STORE for a in list(node.args) + [k.value for k in node.keywords]):
+                raise Declined(f"a store is handed to {dotted(node.func)}: {u[:100]}")
         return []
     if isinstance(stmt, ast.Assign) and len(stmt.targets) == 1:
         t = unparse(stmt.targets[0])
@@ -66,19 +69,76 @@ def _stmt(stmt, pending):
     raise Declined(f"statement touching a store without a rule: {u[:100]}")
 
 
-def _block(stmts, pending, out, guard_iid):
+class _Subst(ast.NodeTransformer):
+    def __init__(self, mapping):
+        self.mapping = mapping
+
+    def visit_Name(self, node):
+        if node.id in self.mapping:
+            return ast.copy_location(ast.parse(self.mapping[node.id], mode="eval").body, node)
+        return node
+
+
+def _helper_call(s):
+    """`self.<helper>(<args>)` as a bare statement where some argument is one of the two stores -> (name, args)."""
+    if isinstance(s, ast.Expr) and isinstance(s.value, ast.Call):
+        d = dotted(s.value.func) or ""
+        args = [unparse(a) for a in s.value.args]
+        if d.startswith("self.") and d.count(".") == 1 and any(a in STORE for a in args):
+            return d.split(".")[1], args, s.value.keywords
+    return None
+
+
+def _inline(mod, name, args, keywords):
+    """Body of the helper method with its parameters replaced by the argument texts (one level, straight-line)."""
+    if keywords:
+        raise Declined(f"helper {name} called with keyword arguments")
+    try:
+        fn = find_function(mod, name, cls="ImportanceNestedSampler")
+    except Exception as e:  # noqa: BLE001
+        raise Declined(f"store passed to {name}, which is not a method of ImportanceNestedSampler") from e
+    a = fn.args
+    if a.vararg or a.kwarg or a.kwonlyargs or a.defaults or fn.decorator_list:
+        raise Declined(f"helper {name}: signature not plain positional")
+    params = [x.arg for x in a.args]
+    if not params or params[0] != "self" or len(params) - 1 != len(args):
+        raise Declined(f"helper {name}: arity mismatch")
+    mapping = dict(zip(params[1:], args))
+    body = strip_doc(fn.body)
+    for st in body:
+        for node in ast.walk(st):
+            if isinstance(node, (ast.Return, ast.Yield, ast.YieldFrom, ast.Global, ast.Nonlocal)):
+                if isinstance(node, ast.Return) and node.value is None:
+                    continue
+                raise Declined(f"helper {name}: returns a value / generator")
+            if isinstance(node, (ast.Assign, ast.AugAssign, ast.AnnAssign)):
+                tg = node.targets if isinstance(node, ast.Assign) else [node.target]
+                for t in tg:
+                    if isinstance(t, ast.Name) and t.id in mapping:
+                        raise Declined(f"helper {name}: rebinds its parameter {t.id}")
+    return [ast.fix_missing_locations(_Subst(mapping).visit(st)) for st in body]
+
+
+def _block(stmts, pending, out, guard_iid, mod=None, depth=0):
     for s in stmts:
         if is_logging(s):
             continue
+        hc = _helper_call(s)
+        if hc is not None:
+            if mod is None or depth >= 2:
+                raise Declined(f"store passed to helper {hc[0]} (not inlined)")
+            _block(_inline(mod, *hc), pending, out, guard_iid, mod, depth + 1)
+            continue
         if isinstance(s, ast.If):
             if unparse(s.test) == "self.draw_iid_live" and not s.orelse:
-                _block(s.body, pending, out, True)
+                _block(s.body, pending, out, True, mod, depth)
                 continue
             if any(_writes_store(x) for x in s.body + s.orelse) or "draw_n_samples" in unparse(s):
                 raise Declined(f"store updated under an unknown condition: {unparse(s.test)}")
             continue
         if isinstance(s, (ast.For, ast.While, ast.With, ast.Try)):
-            if _writes_store(s) or "draw_n_samples" in unparse(s):
+            if _writes_store(s) or "draw_n_samples" in unparse(s) or any(
+                    _helper_call(x) for x in ast.walk(s) if isinstance(x, ast.Expr)):
                 raise Declined("store updated inside a compound statement")
             continue
         for e in _stmt(s, pending):
@@ -117,7 +177,7 @@ def order():
         else:
             fn = find_function(mod, "add_and_update_points", cls="ImportanceNestedSampler")
             pending, out = {}, []
-            _block(strip_doc(fn.body), pending, out, False)
+            _block(strip_doc(fn.body), pending, out, False, mod)
             # resolve DRAW/INSERT pairs: the store a drawn batch is inserted into
             dest = {e[1]: e[2] for e, _ in out if isinstance(e, tuple) and e[0] == "INSERT"}
             for e, g in out:
